@@ -84,7 +84,15 @@ func coqStrList(xs []string) string {
 // ---- case files ----
 // writeCases writes shards of at most shard cases each: cases_<k>.v, and returns the file names.
 func writeCases(outDir, imports, caseType, judgeFn string, cases []string, shard int) []string {
+	files, _ := writeCasesAt(outDir, "cases", imports, caseType, judgeFn, cases, shard, 0)
+	return files
+}
+
+// writeCasesAt: as writeCases, with a file-name prefix and the index of the first case (for runs
+// that mix several case types); returns the files and, per file, the index of its first case.
+func writeCasesAt(outDir, prefix, imports, caseType, judgeFn string, cases []string, shard int, base int) ([]string, []int) {
 	var files []string
+	var offsets []int
 	for k := 0; k*shard < len(cases) || (k == 0 && len(cases) == 0); k++ {
 		lo, hi := k*shard, (k+1)*shard
 		if hi > len(cases) {
@@ -97,14 +105,15 @@ func writeCases(outDir, imports, caseType, judgeFn string, cases []string, shard
 		b.WriteString(strings.Join(cases[lo:hi], ";\n"))
 		b.WriteString("\n].\n")
 		fmt.Fprintf(&b, "Definition R := Eval vm_compute in judge_all %s cases.\nPrint R.\n", judgeFn)
-		fn := filepath.Join(outDir, fmt.Sprintf("cases_%d.v", k))
+		fn := filepath.Join(outDir, fmt.Sprintf("%s_%d.v", prefix, k))
 		must(os.WriteFile(fn, []byte(b.String()), 0o644))
 		files = append(files, fn)
+		offsets = append(offsets, base+lo)
 		if len(cases) == 0 {
 			break
 		}
 	}
-	return files
+	return files, offsets
 }
 
 type Meta struct {
@@ -112,6 +121,7 @@ type Meta struct {
 	Seed        uint64           `json:"seed"`
 	Shard       int              `json:"shard"`
 	Files       []string         `json:"files"`
+	Offsets     []int            `json:"offsets,omitempty"` // index of the first case of each file (default k*shard)
 	NCases      int              `json:"n_cases"`
 	Distinct    int              `json:"distinct_nontrivial"`
 	Rule        string           `json:"rule"`
